@@ -26,6 +26,7 @@ func sniffAll(h []byte, idx int, suffix []byte, r *SniffR) uint8 {
 			r.Bad = append(r.Bad, itoa(idx)+":"+s)
 		}
 	}
+	h = append(make([]byte, 0, len(h)), h...) // capacity = length (the batch array must not be readable behind the header)
 	t0, e0 := imagetype.Buf(h)
 	chk := func(name string, t imagetype.ImageType, err error) {
 		if t != t0 {
